@@ -59,6 +59,8 @@ type socket struct {
 
 	flushMu    sync.Mutex
 	flushAgain atomic.Bool
+	// set by a Close that found packets in the write buffer (the value is its discard flag)
+	closeWhenDrained atomic.Pointer[bool]
 	// bufferMu keeps writeBuffer and packetsFn in step
 	bufferMu sync.Mutex
 }
@@ -560,10 +562,20 @@ func (s *socket) flush() {
 		}
 		s.flushAgain.Store(false)
 		s.flushOnce()
+		s.finishClose()
 		s.flushMu.Unlock()
 		if !s.flushAgain.Load() {
 			return
 		}
+	}
+}
+
+// finishClose closes the transport for a Close that found packets in the write
+// buffer, once they have all been handed over. Called with flushMu held.
+func (s *socket) finishClose() {
+	if discard := s.closeWhenDrained.Load(); discard != nil && s.writeBuffer.Len() == 0 && s.closeWhenDrained.CompareAndSwap(discard, nil) {
+		socket_log.Debug("all packets have been sent, closing the transport")
+		s.closeTransport(*discard)
 	}
 }
 
@@ -622,21 +634,15 @@ func (s *socket) Close(discard bool) {
 	socket_log.Debug("readyState updated from %s to %s", "open", "closing")
 
 	if length := s.writeBuffer.Len(); length > 0 {
-		socket_log.Debug("there are %d remaining packets in the buffer, waiting for the 'drain' event", length)
-		var onDrain types.Listener
-		onDrain = func(...any) {
-			// the drain may be that of an earlier batch (Close called from a listener
-			// of that batch's "flush" event, after a Send): the packets that are still
-			// buffered go out first
-			if s.writeBuffer.Len() > 0 {
-				s.Once("drain", onDrain)
-				return
-			}
-			socket_log.Debug("all packets have been sent, closing the transport")
-			s.closeTransport(discard)
-		}
+		socket_log.Debug("there are %d remaining packets in the buffer, closing the transport once they are handed over", length)
 		vhook.Yield("socket.Close.buffered")
-		s.Once("drain", onDrain)
+		// whoever hands the last buffered packet to the transport closes it (finishClose):
+		// a flush running on another goroutine right now, a later one, or the flush below.
+		// (Waiting for the next 'drain' event instead would miss a drain emitted by
+		// another goroutine just before the listener exists, and would take the drain
+		// of an earlier batch for it when called from a 'flush' listener after a Send.)
+		s.closeWhenDrained.Store(&discard)
+		s.flush()
 		return
 	}
 
